@@ -440,6 +440,10 @@ func evalStr(frag string, e Env) (string, bool) {
 		return e.S0 + e.S1, true
 	case `f2("é", s0)`:
 		return "é" + e.S0, true
+	case "f2(\"\U00010000\", s0)":
+		return "\U00010000" + e.S0, true
+	case "f2(\"\uffff\", s0)":
+		return "\uffff" + e.S0, true
 	case `f2("50%off now", s0)`:
 		return "50%off now" + e.S0, true
 	case `f2(s1, d3[n0%3 + 1])`:
